@@ -212,7 +212,18 @@ def apply_step(f, step, case):
     if kind == "array-assign":
         f.array = _data(step[2], (*n, k), case["dtype"])
     elif kind == "array-inplace":
-        f.array[...] = _data(step[2], (*n, k), case["dtype"])
+        way = step[2] % 4
+        if way == 0:
+            f.array[...] = _data(step[2], (*n, k), case["dtype"])
+        elif way == 1:
+            np.add(f.array, 1, out=f.array)
+        elif way == 2:
+            try:
+                np.multiply(f, 2, out=f)  # through Field.__array_ufunc__
+            except Exception:  # noqa: BLE001 - not supported for this field: skip the step
+                return None
+        else:
+            f.array[(0,) * len(n)] = 7
     elif kind == "update":
         f.update_field_values(_data(step[2], (*n, k), case["dtype"]))
     elif kind == "array-partial":
@@ -315,12 +326,19 @@ def apply_step(f, step, case):
         labels = list(f.vdims)
         if k == nd:
             perm = list(itertools.permutations(range(nd)))[step[2] % len(list(itertools.permutations(range(nd))))]
-            f.vdim_mapping = {labels[c]: dims[perm[c]] for c in range(k)}
+            new = {labels[c]: dims[perm[c]] for c in range(k)}
         elif k > nd:
             perm = list(itertools.permutations(range(k)))[step[2] % len(list(itertools.permutations(range(k))))]
-            f.vdim_mapping = {labels[perm[c]]: (dims[c] if c < nd else None) for c in range(k)}
+            new = {labels[perm[c]]: (dims[c] if c < nd else None) for c in range(k)}
         else:
             return None
+        if step[2] % 2 and set(f.vdim_mapping) == set(new):
+            # the caller keeps ONE dictionary: it is updated and handed to the setter again (the same object)
+            d = f.vdim_mapping
+            d.update(new)
+            f.vdim_mapping = d
+        else:
+            f.vdim_mapping = new
     else:
         raise AssertionError(kind)
     return kind
@@ -550,6 +568,10 @@ def _c03(f, P):
     if f.array.dtype.kind != "c":
         out["sin"] = lambda: np.sin(f)
         out["pow"] = lambda: f**2
+    if f.array.dtype.kind == "f":
+        out["angle"] = lambda: f.angle(f + 1)
+        out["angle-reflected"] = lambda: (f + 1).angle(f)
+        out["norm"] = lambda: f.norm
     return out
 
 
@@ -1031,12 +1053,54 @@ def check_bystander(case):
                             f"source differs from a fresh object - {dd}")
 
 
+FILE_ORIGINS = {"h5": ("h5", {}), "ovf-bin8": ("ovf", {"representation": "bin8"}), "ovf-txt": ("omf", {"representation": "txt"}),
+                "vtk-bin": ("vtk", {"representation": "bin"}), "vtk-xml": ("vtk", {"representation": "xml"})}
+
+
+def check_twin_reads(case, f):
+    """two reads of one file return independent objects: in-place writes to the first (values, validity, mesh moves,
+    subregions, names) change neither the second nor what a later read returns"""
+    import discretisedfield as df
+
+    ext, kw = FILE_ORIGINS[case["origin"]]
+    if ext != "h5" and (f.mesh.region.ndim != 3 or f.array.dtype.kind == "c" or (f.nvdim > 1 and f.vdims is None)):
+        return
+    if ext in ("ovf", "omf") and len(set(f.mesh.region.units)) != 1:
+        return
+    with tempfile.TemporaryDirectory(prefix="verif-twin-") as td:
+        path = os.path.join(td, "f." + ext)
+        f.to_file(path, **kw)
+        g1 = df.Field.from_file(path)
+        g2 = df.Field.from_file(path)
+        s2 = primary_state(g2)
+        c1 = dict(case, dtype={"f": "float", "c": "complex", "i": "int"}.get(g1.array.dtype.kind, "float"))
+        applied = 0
+        for step in case["script"]:
+            if apply_step(g1, step, c1) is not None:
+                applied += 1
+        if not applied:
+            return
+        k = same_state(primary_state(g2), s2)
+        if k:
+            raise Violation(f"reads-share-state:{k}", f"writing {[s_[0] for s_ in case['script']]} to the field returned by one "
+                                                      f"read of a .{ext} file changed '{k}' of the field returned by another read")
+        g3 = df.Field.from_file(path)
+        k = same_state(primary_state(g3), s2)
+        if k:
+            raise Violation(f"read-depends-on-earlier-read:{k}", f"after writing {[s_[0] for s_ in case['script']]} to a field "
+                                                                 f"read from a .{ext} file, reading the untouched file again "
+                                                                 f"returns another '{k}'")
+        tag("twin-reads:" + ext)
+
+
 def check_aged(case):
     if case.get("derive"):
         return check_bystander(case)
     prop = case["prop"]
     obs = OBS[prop]
     aged = build_initial(case)
+    if case.get("origin") in FILE_ORIGINS:
+        check_twin_reads(case, aged)
     if case.get("origin"):
         # the object under test is itself the result of a library operation (a transform, a rotated / padded /
         # resampled / sliced copy, a reload): it behaves like a fresh object with the same public state
